@@ -16,7 +16,7 @@ import (
 
 var helperSamples = map[string][]string{
 	reLang.String(): {"en", "fr", "pt-BR", "zh-Hant-TW", "de-DE-u-co-phonebk", "en-x-legal", "ja-t-it"}, reID.String(): {"id1", "a.b"}, reScope.String(): {"row", "colgroup"}, reNowrap.String(): {"", "nowrap"}, reOpen.String(): {"", "open"},
-	reMapName.String(): {"map1"}, reCoords.String(): {"1,2,3"}, reShape.String(): {"rect"}, reUsemap.String(): {"#map1"},
+	reMapName.String(): {"map1", "\u00fcbersicht", "\u043a\u0430\u0440\u0442\u0430"}, reCoords.String(): {"1,2,3"}, reShape.String(): {"rect"}, reUsemap.String(): {"#map1", "#\u00fcbersicht", "#\u043a\u0430\u0440\u0442\u0430", "#\u5730\u56f3"},
 }
 
 func samplesFor(r rule) []string {
